@@ -322,6 +322,39 @@ std::string body_C06(Ctx& c, CaseIn& in) {
       }
     }
     c.rep.label("second-write-into-partly-filled-writer");
+    // GetSize and Write through ONE Serializer object with the value changed in between (same address): the
+    // capacity needed is the one of the value that is written
+    {
+      GenCfg small = c.cfg; small.budget = 60;
+      Value v2 = gen_value(*t.schema, tp, small);
+      auto o2 = t.make(); o2->assign(v2); Value a2 = o2->get();
+      const size_t G2 = o2->get_size();
+      Written full2 = lib_encode(t, *o2, &refs);
+      for (int k : {W_Buf, W_Ped}) {
+        if (!t.supports_writer(k)) continue;
+        for (size_t cap : {G2, G2 > 0 ? G2 - 1 : G2, G, G > 0 ? G - 1 : G}) {
+          auto ob = t.make(); ob->assign(in.v);
+          WriterBox w; w.open(k, cap, SIZE_MAX);
+          size_t first = 0;
+          int s = ob->size_assign_write(w, a2, &first);
+          c.rep.evaluations++;
+          if (s == kUnsupported) continue;
+          if (first != G) return fmt("getsize-unstable: GetSize through a second Serializer is %zu, was %zu", first, G);
+          if (cap >= G2) {
+            if (s != 0) return fmt("no-space: %s with capacity %zu >= GetSize=%zu of the written value failed (%s); the Serializer had been asked GetSize of the object's previous value (%zu) first", wk_name(k), cap, G2, err_name(s), G);
+            if (w.bytes() != full2.bytes) {
+              // the same logical value in another object may iterate an unordered_map differently: compare what was written
+              Decoded d = ref_decode(*t.schema, w.bytes());
+              if (!d.ok || d.consumed != w.bytes().size() || !value_equal(*t.schema, d.value, a2)) return fmt("bytes-differ: %s after GetSize(previous value) wrote bytes that do not decode to the written value", wk_name(k));
+            }
+          } else {
+            if (s != E_WriteLimitReached) return fmt("overrun-status: %s with capacity %zu < GetSize=%zu of the written value returned %s; the Serializer had been asked GetSize of the object's previous value (%zu) first", wk_name(k), cap, G2, err_name(s), G);
+            if (w.position() != 0) return fmt("partial-write: %s wrote %zu bytes although the value does not fit", wk_name(k), w.position());
+          }
+        }
+      }
+      if (G2 != G) c.rep.label("getsize-then-changed-value-then-write");
+    }
   }
   if (G >= 3 && strictly_between) c.rep.nontriv(case_hash(t, actual));
   if (t.has_handle && full.pushed.size()) c.rep.label("handle-bearing");
